@@ -723,6 +723,39 @@ mutual
         | .ok ks => .ok ((n, v) :: ks)
 end
 
+/-! ## the call of a `{% call %}` block (`compile_call_block` → `compile_call(.., Some(caller))`)
+
+The generated `caller` macro is an extra keyword argument that exists only at run time.  In
+`compile_call_args` a caller forces the keyword map (`has_kwargs = caller.is_some()`), switches the
+static path off (`static_kwargs = caller.is_none()`) and is appended after the user's keyword
+arguments in the dynamic path.  The three facts are regenerated from the source as special cases
+`"caller-forces-kwargs"`, `"static-kwargs-off-for-caller"`, `"caller-appended-last"`; the model
+takes the static path for a call block exactly when the source would. -/
+
+/-- run-time semantics: the keyword arguments are evaluated in order, `caller` comes last -/
+def evalCallBlockRt (name : String) (pos : Exprs) (kws : Kws) (caller : V) : Except Err V :=
+  match evalRtList P m ρ pos with
+  | .error e => .error e
+  | .ok ps => match evalRtKws P m ρ kws with
+    | .error e => .error e
+    | .ok ks => P.callKw m name ps (ks ++ [("caller", caller)])
+
+/-- what `compile_call_args(args, extra, Some(caller))` emits -/
+def evalCallBlockC (name : String) (pos : Exprs) (kws : Kws) (caller : V) : Except Err V :=
+  match evalCList P m ρ pos with
+  | .error e => .error e
+  | .ok ps =>
+    -- `let mut static_kwargs = caller.is_none();`
+    let staticInit := !P.codegenSpecial "static-kwargs-off-for-caller"
+    match gate (P.codegenSpecial "static-kwargs" && staticInit) (constKws kws) with
+    | some ks =>
+      -- `if !collected_kwargs.is_empty() { LoadConst(Kwargs::wrap(collected)) }`: the branch that adds
+      -- the caller is the `else` of this test
+      if ks.isEmpty then P.callKw m name ps [("caller", caller)] else P.callKw m name ps ks
+    | none => match evalCKws P m ρ kws with
+      | .error e => .error e
+      | .ok ks => P.callKw m name ps (ks ++ [("caller", caller)])
+
 /-- the two shapes of code `compile_expr` produces for a whole expression -/
 inductive Code where
   | loadConst (v : V)
